@@ -34,7 +34,7 @@ Theorem C03_tx_id : forall (H : nat -> bytes -> bytes) S k body pbody rest,
   to_prim S fuel body = Ok pbody -> wf pbody -> flatten pbody = pbody ->
   forall tx_bytes, body_slice tx_bytes pbody rest ->
   forall body', from_cbor S "TransactionBody" (enc pbody) = Ok body' ->
-  tx_id_of H S body' = Ok (H 32 (enc pbody)).
+  tx_id_of H S body' = Ok (H 32%nat (enc pbody)).
 Proof. exact tx_id_survives. Qed.
 Print Assumptions C03_tx_id.
 
